@@ -11,6 +11,8 @@ Process schedules cannot be executed symbolically.  Decided instead (DESIGN sect
 Assumed library contract: p_imap returns results in input order; pickling round-trips the coordinator.
 """
 import itertools
+import os
+import sys
 
 from symx import And, Or, Not, Implies
 from symx.runner import Unit
@@ -307,3 +309,49 @@ def sequence_state_unit():
                 nontrivial_rule="every path",
                 assumptions=["labels are multiples of the resolution"],
                 outside=["the FFT correlation itself"])
+
+
+# ------------------------------------------------------------------------------------------------ independence from the run (hash seed)
+
+def body_hashseed(E, cfg):
+    """NOT solver-decided beyond choosing the inputs: for the witness of every path of a small multi-pass scenario the four modes are run
+    in two fresh interpreters with different PYTHONHASHSEED values; every file must come out identical, rows in the same order."""
+    import json
+    import subprocess
+    from symx.runner import jsonable, VERIF, REPO
+    world, res = multipass.run_all_modes(E, cfg)
+    if any(r["exc"] is not None for r in res.values()):
+        E.tag("exception-path")
+        E.check("checked", True)
+        return ["exception"]
+    if E.symbolic:
+        import hashlib
+        h = int(hashlib.md5(repr(E.decision_vector()).encode()).hexdigest(), 16)
+        if h % cfg["sample"] != 0:          # the interpreter start-up dominates: probe a deterministic sample of the paths
+            E.tag("not-probed")
+            E.check("checked", True)
+            return ["not-probed"]
+    E.tag("nontrivial")
+    snap = E.snapshot() if E.symbolic else {"vars": dict(E.used), "choices": list(E.chs)}
+    payload = json.dumps({"cfg": cfg, "snapshot": jsonable(snap)})
+    outs = []
+    for hs in cfg["hash_seeds"]:
+        env = dict(os.environ, PYTHONHASHSEED=str(hs), COMA_REPO=REPO)
+        env.pop("SYMX_TWIN", None)
+        p = subprocess.run([sys.executable, "-B", os.path.join(VERIF, "tools", "hashseed_probe.py")], input=payload, capture_output=True,
+                           text=True, env=env, timeout=120)
+        outs.append(p.stdout.strip() if p.returncode == 0 else "probe failed: " + p.stderr[-300:])
+    E.check("every-file-is-identical-under-different-hash-seeds", all(o == outs[0] for o in outs) and not outs[0].startswith("probe failed"))
+    return [outs[0][:200]]
+
+
+def hashseed_unit():
+    return Unit(name="independence-from-the-hash-seed", body=body_hashseed, witness=False,
+                configs=lambda tier: [dict(KR=6, KQ=6, nq=2, nrefs=2, first=["start+", "end-", "ref2-start+"], second=["none", "continue+"] if tier == "quick" else
+                                           ["none", "continue+", "other-strand"], hash_seeds=[1, 2] if tier == "quick" else [1, 2, 3, 4], sample=24 if tier == "quick" else 6)],
+                functions=multipass.MULTIPASS_FUNCTIONS, stubs=multipass.MULTIPASS_STUBS,
+                bounds="NOT solver-decided: the witness of every 24th (thorough: 6th) path of a 2-query / 2-reference multi-pass scenario, four modes, run in separate "
+                       "interpreters with PYTHONHASHSEED 1 and 2 (thorough: 1..4); files compared row by row",
+                nontrivial_rule="every path",
+                assumptions=["sampled confirmation: only hash-seed dependence that shows on these witnesses is seen"],
+                outside=["everything else about repeated runs"])
